@@ -554,6 +554,10 @@ theorem infer_sound (e : IR) : ∀ (Γ : Ctx) (Δ : Option Ctx) (ρ : Env) (A : 
     cases kvs with
     | nil => exact .err
     | cons p r => exact hv p (by simp)
+  case applyFn fn a u _ =>
+    intro Γ Δ ρ A t _ _ _
+    simp only [eval, applyVal]
+    exact .err
   case streamAgg x a q iha ihq =>
     intro Γ Δ ρ A t h hρ hA
     inv_bind at h
